@@ -87,7 +87,7 @@ def c03(tier, seed):
 
 def c04(tier, seed):
     c = Check("C04", tier, seed)
-    c.rule = "every Hal::share/unshare of every scenario is an event matched against the ledger guards (fresh address, true range, role direction, access_platform, exactly once); output-buffer digests before/after each pop; the same for every queue of every driver in the usage scenarios of the device families (all transports, bouncing and in-place platform)"
+    c.rule = "every Hal::share/unshare of every scenario is an event matched against the ledger guards (fresh address, true range, role direction, access_platform, exactly once); output-buffer digests before/after each pop; the same for every queue of every driver in the usage scenarios of the device families (all transports, bouncing and in-place platform); the public VirtQueue API against the misbehaving reference device with a peek-driven caller that keeps one buffer set per token (repeated / invented / dropped completions must not unshare anything again)"
     c.assumptions = VQ_ASSUME
     mc(c, ["VQ_n2_indirect", "VQ_n2_direct_ev"], tier)
     vq_family(c, tier, seed + 303, ["random"])
@@ -288,7 +288,7 @@ def c09(tier, seed):
 
 def c10(tier, seed):
     c = Check("C10", tier, seed)
-    c.rule = "every operation of the Transport interface on the real MmioTransport (directly and through SomeTransport), legacy and modern register-level device, arguments from boundary grids (queue 0/1/2/65535, sizes 2^k, 64-bit address triples from 16-bit limb patterns, feature words, status values, interrupt status 0..3), config windows 0..256 bytes; probe grid: magic x version x device id x region size; each operation's access sequence is matched against the pattern Mmio.tla prescribes; register logs of all MMIO-backed driver lives validated against the global rules; distinct = operations executed"
+    c.rule = "every operation of the Transport interface on the real MmioTransport (directly and through SomeTransport), legacy and modern register-level device, arguments from boundary grids (queue 0/1/2/65535, sizes 2^k, 64-bit address triples from 16-bit limb patterns, feature words, status values, interrupt status 0..3), the same transport initialised a second time after a reset (a legacy device forgets GuestPageSize when status 0 is written), config windows 0..256 bytes; probe grid: magic x version x device id x region size; each operation's access sequence is matched against the pattern Mmio.tla prescribes; register logs of all MMIO-backed driver lives validated against the global rules; distinct = operations executed"
     c.assumptions = ["the register-level device model (harness/src/mmio.rs) is our reading of Virtio 1.2 4.2.2/4.2.4", "safe-mmio custom-mmio dispatch reports every access with its width"]
     out = os.path.join(WORK, c.pid, "mmio.ndjson")
     idx = run_harness("mmio", out, seed, tier)
@@ -361,7 +361,7 @@ def pci_family(c, mode, module, cfg, seed, tier, max_events=400):
 
 def c11(tier, seed):
     c = Check("C11", tier, seed)
-    c.rule = "TLC (PciMC): limb-arithmetic containment test = mathematical offset+length<=size over all 16-bit-boundary patterns incl. sums wrapping in 32 bits, wrapping formula differs (vacuity), FirstCap over all lists from a menu; traces: thousands of configurations (capability lists with duplicates / short / foreign / reserved-type / reserved-bar entries in any order x BAR tables with I/O, 32/64-bit, unallocated, sizes up to 2^63 x weird 32-bit offsets/lengths/multipliers) through PciTransport::new over both configuration access front ends, result + mapped regions validated by Pci.tla; every Transport operation on accepted devices (multipliers 0..8, permuted notify offsets, with/without device config, reset lag) matched against the common-cfg access patterns; all 11 drivers over the real PCI transport (C08/C09 families)"
+    c.rule = "TLC (PciMC): limb-arithmetic containment test = mathematical offset+length<=size over all 16-bit-boundary patterns incl. sums wrapping in 32 bits, wrapping formula differs (vacuity), FirstCap over all lists from a menu; traces: thousands of configurations (capability lists with duplicates / short / foreign / reserved-type / reserved-bar entries in any order x BAR tables with I/O, 32/64-bit, unallocated, sizes up to 2^63 x weird 32-bit offsets/lengths/multipliers, windows shifted by 1..20 bytes) through PciTransport::new over both configuration access front ends, result + mapped regions validated by Pci.tla; a queue is set up on and the device reset through every accepted transport: each access inside a mapped window and naturally aligned for its width; every Transport operation on accepted devices (multipliers 0..8, permuted notify offsets, with/without device config, reset lag) matched against the common-cfg access patterns; all 11 drivers over the real PCI transport (C08/C09 families)"
     c.assumptions = ["register-level virtio-pci device and PCI function models in harness/src/pci.rs follow Virtio 1.2 4.1 / PCI 3.0", "width of accesses to 64-bit common-cfg fields is not constrained by the property (the crate uses single 64-bit accesses; noted in DESIGN.md)"]
     c.add_mc(run_tlc_mc("PciMC", "PciMC.cfg", workers=4, timeout=600))
     i1 = pci_family(c, "new", "PciTrace", "PciTrace.cfg", seed, tier)
@@ -415,7 +415,7 @@ def device_family(c, fam, module, cfg, seed, tier, max_events=600, extra=(), que
 
 def c14(tier, seed):
     c = Check("C14", tier, seed)
-    c.rule = "MC (BlkMC): every behaviour the guards allow with <=3 outstanding non-blocking requests, 2 sectors, statuses {0,1,3}, any answer/publication order, any poll; traces: random histories of read/write/flush/device_id (blocking) and read_nb/write_nb/complete_* with up to a queue-full outstanding, device statuses {0,1,2,3,9}, sectors incl. > 2^32, 1..128 sectors per request, completion in any order, on model / MMIO legacy+modern / PCI transports x servicing policies (notify-only, poll, late) x feature sets; each decoded request and each result validated; queue-level traces validated against VirtQueue.tla"
+    c.rule = "MC (BlkMC): every behaviour the guards allow with <=3 outstanding non-blocking requests, 2 sectors, statuses {0,1,3}, any answer/publication order, any poll; traces: random histories of read/write/flush/device_id (blocking) and read_nb/write_nb/complete_* with up to a queue-full outstanding, device statuses {0,1,2,3,9}, sectors incl. > 2^32, 1..128 sectors per request, completion in any order, on model / MMIO legacy+modern / PCI transports x servicing policies (notify-only, poll, late) x feature sets (none, FLUSH, RO, INDIRECT/EVENT_IDX, and the write-cache / topology / discard bits the driver does not implement offered without FLUSH); each decoded request and each result validated; queue-level traces validated against VirtQueue.tla"
     c.assumptions = ["the reference block device decodes the request header per Virtio 1.2 5.2.6 (little-endian type/reserved/sector)", "data integrity is compared by 64-bit FNV digests"]
     c.add_mc(run_tlc_mc("BlkMC", "BlkMC.cfg", workers=MCW, timeout=900))
     device_family(c, "blk", "BlkTrace", "BlkTrace.cfg", seed, tier)
@@ -432,7 +432,7 @@ def c14(tier, seed):
 
 def c15(tier, seed):
     c = Check("C15", tier, seed)
-    c.rule = "MC (ConsoleMC): the receive path transcribed from console.rs/embedded_io.rs against Console.tla, buffer capacity 3, stream of 7 bytes in chunks 1..3, the device filling at any instant (blocking reads are two-step), every interleaving of recv(peek)/recv(pop)/read/fill_buf+consume/read_ready; negative configuration (re-post while unread bytes remain) must be refused; traces: random API mixes with device chunks 1..4096 bytes on all transports x servicing policies x feature sets; every returned byte is tied to its stream position"
+    c.rule = "MC (ConsoleMC): the receive path transcribed from console.rs/embedded_io.rs against Console.tla, buffer capacity 3, stream of 7 bytes in chunks 1..3, the device filling at any instant (blocking reads are two-step), every interleaving of recv(peek)/recv(pop)/read/fill_buf+consume/read_ready; negative configuration (re-post while unread bytes remain) must be refused; traces: random API mixes with device chunks 1..4096 bytes on all transports x servicing policies x feature sets; every returned byte is tied to its stream position; transmit side: send / send_bytes, embedded-io write (position-coded, lengths around a page) and core::fmt::Write (write_str, write_char, write! with characters of 1..4 UTF-8 bytes, fill characters, Debug escapes): the chains the device sees carry exactly the caller's bytes"
     c.assumptions = ["stream bytes are position-coded (B(p) = (7p+3) mod 256); bulk reads are logged as (count, first byte, consecutive?)", "blocking reads are only issued when the device has input queued (liveness of an idle device is not part of the property)"]
     c.add_mc(run_tlc_mc("ConsoleMC", "Console_ok.cfg", workers=4, timeout=600))
     c.add_mc(run_tlc_mc("ConsoleMC", "Console_bug_early_repost.cfg", workers=4, timeout=600), expect_violation=True)
@@ -442,7 +442,7 @@ def c15(tier, seed):
 
 def c16(tier, seed):
     c = Check("C16", tier, seed)
-    c.rule = "MC (NetMC): buffer-managing driver transcribed against Net.tla, queue 2/4, frames of abstract length 0..2, any arrival order/burst, with/without VERSION_1, negative configuration (a received buffer is dropped) must violate conservation; traces: raw driver (transmit_begin/complete, receive_begin/complete, send, poll_*) and buffered driver (send/receive/recycle/can_*) with frame lengths 0..buffer size, queue sizes 2/4/16, out-of-order bursts, 10- and 12-byte headers, all transports and policies"
+    c.rule = "MC (NetMC): buffer-managing driver transcribed against Net.tla, queue 2/4, frames of abstract length 0..2, any arrival order/burst, with/without VERSION_1, negative configuration (a received buffer is dropped) must violate conservation; traces: raw driver (transmit_begin/complete, receive_begin/complete, send, poll_*) and buffered driver (send/receive/recycle/can_*) with frame lengths 0..buffer size, queue sizes 2/4/16, out-of-order bursts, 10- and 12-byte headers, received frames read through packet() and packet_mut() alike, all transports and policies"
     c.assumptions = ["the reference net device writes a non-trivial virtio-net header of the negotiated size and position-coded frame bytes; frames compared by digest"]
     mc(c, ["Net_q2"] + (["Net_q4"] if tier == "thorough" else []), tier, module="NetMC", negative=["Net_bug_lose_buffer"])
     device_family(c, "net", "NetTrace", "NetTrace.cfg", seed, tier)
@@ -475,7 +475,7 @@ def c18(tier, seed):
 
 def c19(tier, seed):
     c = Check("C19", tier, seed)
-    c.rule = "MC (EventQueueMC): OwningQueue::poll transcribed against EventQueue.tla, queue 2 (lengths 0..2) and 4 (0..1), any completion order, bursts up to the queue size, 3N events, handler succeeding or failing; negative configuration (no re-add when the handler fails) must be refused; traces: OwningQueue directly (2x16, 4x64, 8x16; written lengths 0..capacity; handler returning Some/None/Err), VirtIOInput::pop_pending_event and VirtIOSound::latest_notification (32 buffers, 8-byte events), >= 12N+40 events (thorough 100N) in random bursts and orders, all transports; VirtIOSocket::poll is covered by the vsock family (invariant Stocked of Vsock.tla)"
+    c.rule = "MC (EventQueueMC): OwningQueue::poll transcribed against EventQueue.tla, queue 2 (lengths 0..2) and 4 (0..1), any completion order, bursts up to the queue size, 3N events, handler succeeding or failing; negative configuration (no re-add when the handler fails) must be refused; traces: OwningQueue directly (2x16, 4x64, 8x16; written lengths 0..capacity; handler returning Some/None/Err), VirtIOInput::pop_pending_event and VirtIOSound::latest_notification (32 buffers, 8-byte events), >= 12N+40 events (thorough 100N) in random bursts and orders, all transports; long runs of 66500 events per queue (the 16-bit ring indices wrap; queue-level recording off, device-level trace cut at quiescent markers the specification re-checks); VirtIOSocket::poll is covered by the vsock family (invariant Stocked of Vsock.tla)"
     c.assumptions = ["sound and input events have a fixed size: they are driven with well-formed 8-byte events; arbitrary written lengths are applied to OwningQueue and the socket receive queue"]
     mc(c, ["EventQueue_q2", "EventQueue_q4"], tier, module="EventQueueMC", negative=["EventQueue_bug_no_readd"])
     device_family(c, "evq", "EventQueueTrace", "EventQueueTrace.cfg", seed, tier, max_events=1500)
